@@ -2,6 +2,7 @@ import AgModel.Proofs.PoolS2N
 import AgModel.Proofs.PoolS2NComplete
 import AgModel.Proofs.PoolS2NGlue
 import AgModel.Proofs.PoolS2NGlueEvents
+import AgModel.Proofs.PoolS2NGluePanic
 /-!
 # C06 — Safe-to-notar / safe-to-skip are signalled exactly when the protocol allows
 
@@ -237,6 +238,17 @@ theorem pool_no_unknown_parent_panic_wake (R : List Reg) (p : Pool) (c : Cert) (
 theorem pool_no_unknown_parent_panic_block (q : Pool) (b par : Nat × Nat) (e0 : List Event) (cert : Bool)
     (h0 : Event.panic ∉ e0) : Event.panic ∉ (Pool.addBlockTail (q.known b) b par e0 cert).2 :=
   addBlockTail_no_panic _ b par e0 cert (known_known q b) h0
+
+/-- **No `parent not known` panic, run level.** `trackerRun` (Proofs/PoolS2NGluePanic.lean) lists, operation by operation,
+    only the events produced by `handle_finalization` (finality tracker: "consensus safety violation"; parent-ready
+    tracker), by the parent-ready bookkeeping of `add_valid_cert`, by the signer bound of `add_vote` and by `add_block`'s
+    slot-order / `add_parent` assertions — it leaves out everything `notify_waiting_children`, `SlotState::add_vote` and
+    `add_block`'s own `notify_parent_certified` emit. It is a sub-list of the real events, and **every `.panic` of the run is in
+    it**: no run ever emits the `parent not known` panic of `notify_parent_certified`, from either call site. -/
+theorem pool_panic_only_from_trackers (e : Epoch) (ops : List PoolOp) :
+    (Event.panic ∈ (poolRun { epoch := e } ops).2 ↔ Event.panic ∈ trackerRun { epoch := e } ops) ∧
+    (∀ ev ∈ trackerRun { epoch := e } ops, ev ∈ (poolRun { epoch := e } ops).2) :=
+  ⟨⟨poolRun_panic_source ops [] _ (FlagInv.init e), trackerRun_sub ops _ _⟩, trackerRun_sub ops _⟩
 
 /-- **Pool-level completeness / timeliness of safe-to-notar.** In every reachable pool (positive total stake), for every
     accepted registration `b → par` whose slot is retained: if the pool holds a certificate for `par`, the stake clause
